@@ -27,7 +27,7 @@ EXPLANATION = (
     'or warns, or skips a blank/marker line. The lag spellings the model emits are pushed through tokenize/untokenize and '
     "must be covered by the parser's normalisation table; the stored RHS is only stripped and lag-normalised.")
 
-RAW, CLEAN, POS = 'raw', 'clean', 'pos'
+RAW, CLEAN, POS, STRIPPED = 'raw', 'clean', 'pos', 'stripped'
 CLASS_LISTS = ('Endogenous', 'Lagged', 'Exogenous')
 CLASS_DICTS = ('InitialConditions',)
 CLASS_SCALARS = ('MaxTime', 'Err_Tolerance')
@@ -94,7 +94,11 @@ class Taint(object):
                     and v.args[0].value == '#' and isinstance(v.func.value, ast.Name) and isinstance(s.targets[0], ast.Name):
                 st[s.targets[0].id] = {'pos:' + v.func.value.id}
                 return st
-            tags = self.expr(v, st)
+            tags = self.expr(v, st) - {STRIPPED}
+            if isinstance(v, ast.Call) and call_name(v) == 'strip' and not v.args and isinstance(v.func, ast.Attribute):
+                tags = tags | {STRIPPED}
+            elif isinstance(v, ast.Name) and STRIPPED in st.get(v.id, ()):
+                tags = tags | {STRIPPED}
             for t in s.targets:
                 for nm in target_names(t):
                     st[nm] = set(tags)
@@ -128,9 +132,16 @@ class Taint(object):
 def is_empty_test(e, taint, node):
     """`len(c.strip()) == 0`, `c.strip() == ''`, `not c.strip()`, `len(c) == 0`, `not c`, `c == ''` on clean c"""
     def clean_text(x):
+        """comment-stripped text whose emptiness means "no statement on this line": it must also be whitespace-stripped,
+        either here (x.strip()) or already (the variable holds stripped text)"""
+        stripped = False
         while isinstance(x, ast.Call) and call_name(x) in ('strip', 'lower', 'rstrip', 'lstrip') and isinstance(x.func, ast.Attribute):
+            if call_name(x) == 'strip':
+                stripped = True
             x = x.func.value
-        return isinstance(x, ast.Name) and RAW not in taint.tags_at(node, x)
+        if not isinstance(x, ast.Name) or RAW in taint.tags_at(node, x):
+            return False
+        return stripped or STRIPPED in taint.tags_at(node, x)
     if isinstance(e, ast.UnaryOp) and isinstance(e.op, ast.Not):
         return clean_text(e.operand)
     if isinstance(e, ast.Compare) and len(e.ops) == 1 and isinstance(e.ops[0], ast.Eq):
@@ -322,6 +333,39 @@ def run(prog, check):
                  'documented spelling %s is no longer recognised' % user, 'a block using ' + user)
     # ---- R4 ----------------------------------------------------------------------------------------
     check_default_t(prog, check, 'C14.R4')
+    # ---- R6: the emitter decides "exogenous" from the right-hand side only, never from the description ----
+    n6 = 0
+    for fn in prog.all_functions():
+        if fn.cls is None or fn.cls.name != 'Model':
+            continue
+        sub = single_assign_subst(fn.node)
+        for n in ast.walk(fn.node):
+            subject = None
+            if isinstance(n, ast.Compare) and isinstance(n.ops[0], (ast.In, ast.NotIn)) and isinstance(n.left, ast.Constant) and n.left.value == 'EXOGENOUS':
+                subject = n.comparators[0]
+            elif isinstance(n, ast.Call) and call_name(n) == 'replace' and n.args and isinstance(n.args[0], ast.Constant) and n.args[0].value == 'EXOGENOUS':
+                subject = n.func.value
+            if subject is None:
+                continue
+            e = subject
+            if isinstance(e, ast.Name) and e.id in sub:
+                e = sub[e.id]
+            ok = isinstance(e, ast.Subscript) and isinstance(e.slice, ast.Constant) and e.slice.value == 1
+            n6 += 1
+            check.saw(fn)
+            check.ob('C14.R6', '%s::marker-tested-on-rhs-only(%s)' % (fn.key, unparse(subject)), ok, '%s:%d' % (fn.module.rel, n.lineno),
+                     'the EXOGENOUS marker is looked for / removed in the right-hand side component only' if ok else
+                     'the EXOGENOUS marker is looked for in `%s`, which includes the free-text description' % unparse(subject),
+                     "a variable whose description contains the word EXOGENOUS")
+    # descriptions are emitted behind '#': the row formatter puts the third component after the comment sign
+    fmt_ok = False
+    for fn in prog.all_functions():
+        if fn.cls is not None and fn.cls.name == 'Model':
+            for c in ast.walk(fn.node):
+                if isinstance(c, ast.Constant) and isinstance(c.value, str) and c.value.count('%') >= 3 and '#' in c.value:
+                    fmt_ok = c.value.rfind('%') > c.value.find('#') and c.value.count('#') == 1 and c.value.find('=') < c.value.find('#')
+    check.ob('C14.R6', 'Model::description-behind-comment-sign', fmt_ok, 'sfc_models/models.py',
+             'rows are formatted as `name = rhs  # description`' if fmt_ok else 'the description is not emitted behind a single comment sign', 'any description')
     # ---- R5 ----------------------------------------------------------------------------------------
     for n in ast.walk(loop):
         if isinstance(n, ast.Assign) and any(rhs_var in target_names(t) for t in n.targets):
@@ -356,6 +400,7 @@ def run(prog, check):
     check.floor('C14.R2', 8)
     check.floor('C14.R3', 5)
     check.floor('C14.R4', 2)
+    check.floor('C14.R6', 4)
     check.floor('C14.R5', 3)
 
 
